@@ -56,7 +56,7 @@ func genOptCase(r *Rng, tier string) OptCase {
 		c.NoCost = true
 		return c
 	}
-	c.CostLits, c.CostW = genCost(r, n, r.Chance(1, 40))
+	c.CostLits, c.CostW = genCost(r, n, r.Chance(1, 3))
 	// declare every variable even if GtEq drops its zero-weight term (a trivially true
 	// constraint still declares its variables in ParsePBConstrs)
 	c.Constrs = append(c.Constrs, Constr{Kind: "atleast", Lits: []int{n}, N: 0})
@@ -110,16 +110,9 @@ func (c *OptCase) hasNegCost() bool {
 func init() {
 	register(&Prop{
 		ID: "C03",
-		Rule: "constraint sets as for C02 (through ParsePBConstrs) with a cost function over 1..n distinct variables, literals of either polarity, weights nil (all 1), 0..6, occasionally 10..40, and (1 case in 40) negative; 1 case in 15 has no cost function. Each case is optimised with Solver.Optimal (unbuffered result channel, all results collected) and, on a fresh solver, with Solver.Minimize; both are judged by the verified exhaustive optimum (GS.bruteOpt). Non-trivial = satisfiable with a cost function and at least one improvement step or search; distinct = distinct (constraints, cost function).",
+		Rule: "constraint sets as for C02 (through ParsePBConstrs) with a cost function over 1..n distinct variables, literals of either polarity, weights nil (all 1), 0..6, occasionally 10..40, and, in 1 case in 3, negative for a third of the terms; 1 case in 15 has no cost function. Each case is optimised with Solver.Optimal (unbuffered result channel, all results collected) and, on a fresh solver, with Solver.Minimize; both are judged by the verified exhaustive optimum (GS.bruteOpt); every bound constraint Optimal appends (hook at the start of AppendClause) is compared term for term with the one the Lean mirror GS.OptimS.goBoundS builds for the cost just streamed. Non-trivial = satisfiable with a cost function and at least one improvement step or search; distinct = distinct (constraints, cost function).",
 		Gens:    []Gen{{Name: "opt", Weight: 1, Make: func(r *Rng, tier string) interface{} { return genOptCase(r, tier) }}},
 		Run:     runOptCase,
-		Classify: func(d json.RawMessage) []string {
-			var c OptCase
-			if json.Unmarshal(d, &c) == nil && c.hasNegCost() {
-				return []string{"negative-cost-coefficient"}
-			}
-			return nil
-		},
 		Cases:   defCases(4000, 100000),
 		Timeout: defDur(10*time.Second, 60*time.Second),
 		Wall:    defDur(50*time.Second, 12*time.Minute),
@@ -168,8 +161,7 @@ func runOptCase(o *Oracle, d json.RawMessage, oc *Outcome) {
 	oc.Key = keyOf(c)
 	oc.Sample = fmt.Sprintf("min %v*%v s.t. %s", c.CostW, c.CostLits, constrsString(c.Constrs))
 	if c.hasNegCost() {
-		oc.Class("negative-cost-coefficient")
-		oc.Tag("class:negcost")
+		oc.Tag("negative-cost-coefficient")
 	}
 	if c.CostW == nil && !c.NoCost {
 		oc.Tag("nil-weights")
@@ -215,8 +207,11 @@ func runOptCase(o *Oracle, d json.RawMessage, oc *Outcome) {
 	// entry point 1: Optimal
 	s1 := solver.New(c.problem())
 	s1.CuttingPlanes = c.CP
+	obs := watchAppends(s1)
 	r1 := runOptimal(s1, 0, nil)
+	s1.VerifSetAppendHook(nil)
 	judge("solver.Optimal", r1.res.Status, r1.res.Weight, r1.res.Model)
+	boundMirror(o, oc, "solver.Optimal", *obs, r1, coefs, lits)
 	if len(r1.stream) > 1 {
 		oc.Tag("improvement-steps>0")
 		oc.Nontrivial = true
@@ -234,7 +229,8 @@ func runOptCase(o *Oracle, d json.RawMessage, oc *Outcome) {
 	} else {
 		judge("solver.Minimize", solver.Sat, cost2, s2.Model())
 	}
-	if (r1.res.Status == solver.Unsat) != (cost2 == -1) || (r1.res.Status == solver.Sat && r1.res.Weight != cost2) {
+	// Minimize answers -1 both for Unsat and for an optimum of -1 (GS.OptimS.minimizeResult_ambiguous)
+	if (r1.res.Status == solver.Unsat && cost2 != -1) || (r1.res.Status == solver.Sat && r1.res.Weight != cost2) {
 		oc.Fail("spec", "entry-points-agree", "solver.Optimal/Minimize", "Optimal: %v cost %d; Minimize: %d", r1.res.Status, r1.res.Weight, cost2)
 	}
 }
@@ -308,5 +304,72 @@ func checkStream(o *Oracle, oc *Outcome, entry string, r optRun, n int, sem []Li
 		if i > 0 && r.stream[i-1].Status == solver.Sat && x.Weight >= r.stream[i-1].Weight {
 			oc.Fail("spec", "stream-decreasing", entry, "costs %d then %d", r.stream[i-1].Weight, x.Weight)
 		}
+	}
+}
+
+// appendObs is what the AppendClause hook reports: the top-level literals at that point and the
+// constraint as it was handed over.
+type appendObs struct {
+	top []int
+	c   solver.PBConstr
+	pb  bool
+}
+
+func watchAppends(s *solver.Solver) *[]appendObs {
+	var obs []appendObs
+	s.VerifSetAppendHook(func(top []int, c solver.PBConstr, pb bool) {
+		obs = append(obs, appendObs{append([]int{}, top...), c, pb})
+	})
+	return &obs
+}
+
+// boundMirror ties the optimisation loop to its Lean mirror GS.OptimS (theorems boundS_sem,
+// minimizeS_optimal): the k-th constraint Optimal appends must be, term for term, the bound
+// constraint goBoundS f c_k the mirror builds for the k-th streamed cost (Go's sort is not stable:
+// terms are compared as multisets), and no append happens after the last result.
+func boundMirror(o *Oracle, oc *Outcome, entry string, obs []appendObs, r optRun, coefs, lits []int) {
+	var costs []int
+	for _, x := range r.stream {
+		if x.Status == solver.Sat {
+			costs = append(costs, x.Weight)
+		}
+	}
+	if len(obs) > len(costs) || (len(costs) > 0 && len(obs) < len(costs)-1) {
+		oc.Fail("corr", "bound-mirror", entry, "%d constraints appended for %d streamed results", len(obs), len(costs))
+		return
+	}
+	terms := make([]int, 0, 2*len(lits))
+	for i := range lits {
+		terms = append(terms, coefs[i], lits[i])
+	}
+	for k, ob := range obs {
+		a := o.Ask(fmt.Sprintf("gobounds %s | %d", encInts(terms), costs[k]))
+		want, err := parseIntsLine(a)
+		oc.Corr++
+		if err != nil || len(want)%2 != 1 {
+			oc.Fail("corr", "bound-mirror", entry, "mirror answered %q", a)
+			return
+		}
+		type term struct{ w, l int }
+		ms := map[term]int{}
+		for i := 1; i+1 < len(want); i += 2 {
+			ms[term{want[i], want[i+1]}]++
+		}
+		ok := ob.pb && ob.c.AtLeast == want[0] && len(ob.c.Lits) == (len(want)-1)/2
+		for i := range ob.c.Lits {
+			ms[term{ob.c.Weights[i], ob.c.Lits[i]}]--
+		}
+		for _, v := range ms {
+			if v != 0 {
+				ok = false
+			}
+		}
+		if !ok {
+			oc.Fail("corr", "bound-mirror", entry, "after cost %d Go appended %v*%v >= %d, the mirror GS.OptimS.goBoundS gives [degree c l ...] %v", costs[k], ob.c.Weights, ob.c.Lits, ob.c.AtLeast, want)
+			return
+		}
+	}
+	if len(obs) > 0 {
+		oc.Tag("bound-mirror-compared")
 	}
 }
